@@ -89,6 +89,8 @@ def render_contract(c, role, lines, ind):
         dflt = err[3] if len(err) > 3 else []
         kws = ", ".join("'%s': %s" % (n, n) for n in names)
         plist = ", ".join(n + ("=W.MISSING" if n in dflt else "") for n in names)
+        if names and c["cid"] % 4 == 0:
+            plist = "*, " + plist            # a factory that takes its values by keyword only
         if len(err) > 2 and err[2] == "lambda":
             return "%s, error=lambda %s: W.error(%d, {%s})" % (cond, plist, c["cid"], kws)
         lines.append("%sdef e_%d(%s): return W.error(%d, {%s})" % (ind, c["cid"], plist, c["cid"], kws))
